@@ -144,7 +144,9 @@ pub fn run(tier: &str, seed: u64, report: &mut Report) {
         for p in &pend {
             let m = parse_answer(&answers[p.i_req]);
             let before = report.disagreements.len();
-            compare_run(report, "fault:backup", &p.case, &p.real, &m, &CmpOpts::default());
+            // error events compared as a multiset: the code reads the basis lazily, so errors of faulted basis
+            // reads interleave differently with per-file errors than in the (eager) model
+            compare_run(report, "fault:backup", &p.case, &p.real, &m, &CmpOpts { errors_unordered: true, ..Default::default() });
             if std::env::var("VERIF_DEBUG").is_ok() && report.disagreements.len() > before && before < 2 {
                 eprintln!("==== CASE {}", p.case["plan"]);
                 eprintln!("---- real\n{}\n{}\n{}", p.real.trace.join("\n"), p.real.events.join("\n"), p.real.result);
